@@ -1424,14 +1424,14 @@ func (lhh *LightHouseHandler) handleHostPunchNotification(n *NebulaMeta, fromVpn
 		return
 	}
 
-	remoteAllowList := lhh.lh.GetRemoteAllowList()
+	// Punch targets pass the same filter as reported addresses: allowed by the remote allow list and not
+	// inside our own vpn networks.
 	for _, a := range n.Details.V4AddrPorts {
 		if a == nil {
 			continue
 		}
-		b := protoV4AddrPortToNetAddrPort(a)
-		if remoteAllowList.Allow(detailsVpnAddr, b.Addr()) {
-			lhh.lh.punchy.Schedule(b, detailsVpnAddr)
+		if lhh.lh.unlockedShouldAddV4(detailsVpnAddr, a) {
+			lhh.lh.punchy.Schedule(protoV4AddrPortToNetAddrPort(a), detailsVpnAddr)
 		}
 	}
 
@@ -1439,9 +1439,8 @@ func (lhh *LightHouseHandler) handleHostPunchNotification(n *NebulaMeta, fromVpn
 		if a == nil {
 			continue
 		}
-		b := protoV6AddrPortToNetAddrPort(a)
-		if remoteAllowList.Allow(detailsVpnAddr, b.Addr()) {
-			lhh.lh.punchy.Schedule(b, detailsVpnAddr)
+		if lhh.lh.unlockedShouldAddV6(detailsVpnAddr, a) {
+			lhh.lh.punchy.Schedule(protoV6AddrPortToNetAddrPort(a), detailsVpnAddr)
 		}
 	}
 
